@@ -607,8 +607,55 @@ func genConc(t *rapid.T) *Case {
 			r.Count = lo
 		}
 	}
+	// files whose single fid is used by several goroutines at once (shared.go)
+	ns := rapid.SampledFrom([]int{0, 1, 1, 1, 2, 3}).Draw(t, "shared")
+	for i := 0; i < ns; i++ {
+		s := Shared{
+			Create:  rapid.Bool().Draw(t, "screate"),
+			Seed:    rapid.Uint64().Draw(t, "sseed"),
+			Striped: rapid.Bool().Draw(t, "sstriped"),
+			Block:   uint32(clamp(rapid.SampledFrom([]int64{1, 13, 512, u - 1, u, u + 1, maxChunk}).Draw(t, "sblock"), 1, maxChunk)),
+		}
+		if !s.Create {
+			s.InitLen = int(clamp(rapid.SampledFrom([]int64{0, 1, u - 1, u + 1, 2*u + 1, 3 * u}).Draw(t, "sinit"), 0, 20000))
+		}
+		g := rapid.IntRange(2, 8).Draw(t, "swriters")
+		// bound the volume per file (about 1 MB) but keep enough blocks per
+		// writer for the requests of different goroutines to overlap
+		s.Blocks = int(clamp(int64(rapid.IntRange(8, 64).Draw(t, "sblocks")), 4, max(4, (1<<20)/(int64(g)*int64(s.Block)))))
+		for j := 0; j < g; j++ {
+			w := SharedWriter{
+				Helper:   rapid.SampledFrom(sharedWriteKinds).Draw(t, "swhelper"),
+				Down:     rapid.Bool().Draw(t, "sdown"),
+				ReadBack: rapid.SampledFrom([]int{0, 0, 1, 3}).Draw(t, "sreadback"),
+			}
+			if w.ReadBack > 0 {
+				w.RHelper = rapid.SampledFrom(sharedReadKinds).Draw(t, "srhelper")
+			}
+			s.Writers = append(s.Writers, w)
+		}
+		if s.InitLen > 0 {
+			for j := rapid.IntRange(0, 2).Draw(t, "sreaders"); j > 0; j-- {
+				r := SharedReader{
+					Helper: rapid.SampledFrom(sharedReadKinds).Draw(t, "srdhelper"),
+					Count:  uint32(clamp(rapid.SampledFrom([]int64{1, u - 1, u, u + 1, 2*u + 1}).Draw(t, "srcount"), 1, 20000)),
+					Rounds: rapid.IntRange(1, 3).Draw(t, "srounds"),
+				}
+				if lo := uint32(s.InitLen/200 + 1); r.Count < lo {
+					r.Count = lo
+				}
+				s.Readers = append(s.Readers, r)
+			}
+		}
+		c.Conc.Shared = append(c.Conc.Shared, s)
+	}
 	return c
 }
+
+// helpers that take an explicit offset and keep no position in the File: the
+// only ones several goroutines may call on one File at the same time
+var sharedWriteKinds = []string{"cwrite", "writeat", "written"}
+var sharedReadKinds = []string{"cread", "readat", "readn"}
 
 func sampleConc(c *Case) interface{} {
 	s := *c
@@ -620,7 +667,11 @@ func sampleConc(c *Case) interface{} {
 		}
 	}
 	s.Conc = &sp
-	s.Desc = fmt.Sprintf("%d writers x %d chunks (lens truncated to 6), %d readers", len(c.Conc.Writers), len(c.Conc.Writers[0].Lens), len(c.Conc.Readers))
+	nch := 0
+	if len(c.Conc.Writers) > 0 {
+		nch = len(c.Conc.Writers[0].Lens)
+	}
+	s.Desc = fmt.Sprintf("%d writers x %d chunks (lens truncated to 6), %d readers, %d files with a shared fid", len(c.Conc.Writers), nch, len(c.Conc.Readers), len(c.Conc.Shared))
 	return s
 }
 
